@@ -29,6 +29,7 @@ class AttrTypes:
     def __init__(self, prog: Program):
         self.prog = prog
         self._cache: Dict[str, Dict[str, Set[tuple]]] = {}
+        self._aliases: Dict[str, Dict[str, Set[str]]] = {}
 
     def init_chain(self, cls: ClassInfo) -> List[Tuple[ClassInfo, FuncInfo]]:
         """The ``__init__`` methods executed when constructing ``cls`` (following super().__init__)."""
@@ -52,6 +53,8 @@ class AttrTypes:
         if cls.qualname in self._cache:
             return self._cache[cls.qualname]
         res: Dict[str, Set[tuple]] = {}
+        aliases: Dict[str, Set[str]] = {}
+        self._aliases[cls.qualname] = aliases
         for owner, fi in self.init_chain(cls):
             local_types: Dict[str, Set[tuple]] = {}
             params = set(fi.params()[1:])
@@ -62,6 +65,9 @@ class AttrTypes:
                         t = self.type_of_expr(fi, n.value, params, local_types, res)
                         for tgt in n.targets:
                             self._bind(tgt, t, local_types, res, fi)
+                            if _self_attr(tgt, fi) and isinstance(n.value, (ast.List, ast.Tuple)) and n.value.elts \
+                                    and all(_self_attr(e, fi) for e in n.value.elts):
+                                aliases.setdefault(tgt.attr, set()).update(e.attr for e in n.value.elts)
                     elif isinstance(n, ast.AnnAssign) and n.value is not None:
                         t = self.type_of_expr(fi, n.value, params, local_types, res)
                         self._bind(n.target, t, local_types, res, fi)
@@ -79,6 +85,11 @@ class AttrTypes:
                 res.setdefault(name, set()).add(("other",))
         self._cache[cls.qualname] = res
         return res
+
+    def aliases(self, cls: ClassInfo) -> Dict[str, Set[str]]:
+        """list attribute -> the self attributes whose values it holds (``self.ts = [self.a, self.b]``)."""
+        self.of(cls)
+        return self._aliases.get(cls.qualname, {})
 
     def _bind(self, tgt, t, local_types, res, fi):
         if isinstance(tgt, ast.Name):
